@@ -12,12 +12,14 @@ pub struct Scratch {
 }
 impl Scratch {
     pub fn new(tag: &str) -> Scratch {
-        let base = if Path::new("/dev/shm").is_dir() { PathBuf::from("/dev/shm") } else { verif_dir().join("work") };
+        let base = simcore::driver::scratch_base();
         static N: std::sync::atomic::AtomicU64 = std::sync::atomic::AtomicU64::new(0);
         let n = N.fetch_add(1, std::sync::atomic::Ordering::SeqCst);
         let dir = base.join(format!("verif-run-{}-{tag}-{n}", std::process::id()));
         let _ = std::fs::remove_dir_all(&dir);
-        std::fs::create_dir_all(&dir).expect("scratch dir");
+        if let Err(e) = std::fs::create_dir_all(&dir) {
+            simcore::driver::harness_error(&format!("cannot create scratch directory {}: {e}", dir.display()));
+        }
         Scratch { dir }
     }
 }
@@ -37,7 +39,9 @@ pub fn write_file(dir: &Path, name: &str, file: &MidasFile, lz4: bool, truncate_
         bytes = lz4_frame(&bytes);
     }
     let p = dir.join(name);
-    std::fs::write(&p, bytes).expect("write midas file");
+    if let Err(e) = std::fs::write(&p, bytes) {
+        simcore::driver::harness_error(&format!("cannot write simulated run file {}: {e}", p.display()));
+    }
     p
 }
 
@@ -81,7 +85,9 @@ pub fn run_binary(name: &str, cwd: &Path, files: &[PathBuf], extra: &[&str], out
     let out = cwd.join(format!("{out_stem}.csv"));
     let _ = std::fs::remove_file(&out);
     if let Some(stale) = &env.stale_output {
-        std::fs::write(&out, stale).expect("write stale output file");
+        if let Err(e) = std::fs::write(&out, stale) {
+            simcore::driver::harness_error(&format!("cannot write {}: {e}", out.display()));
+        }
     }
     let mut cmd = Command::new(binary(name, env.real_rayon));
     cmd.current_dir(cwd);
